@@ -113,6 +113,7 @@ def build_jobs(t, sd):
             fams += gen.operator_sweep(mode, v, thorough)
             fams += gen.env_family(mode, v)
             fams += gen_fields.field_probes(mode, v)
+            fams += gen_fields.maybe_probes(mode, v)
             if v >= 4:
                 fams += gen_subs.sub_family(mode, v, thorough)
                 if mode == "A" and (thorough or v in (6, 8)):
